@@ -547,7 +547,8 @@ func (s *Server) readPQClientAuth(b []byte, addr *net.UDPAddr) (int, *HandshakeS
 	logrus.Debugf("buf %v", b)
 
 	encCertsLen := (int(b[2]) << 8) + int(b[3])
-	if len(b) < HeaderLen+SessionIDLen+encCertsLen+MacLen {
+	// the message ends with two MACs: the tag over the certificates and the final MAC
+	if len(b) < HeaderLen+SessionIDLen+encCertsLen+2*MacLen {
 		logrus.Debug("server: client auth too short")
 		return 0, nil, ErrBufUnderflow
 	}
